@@ -386,6 +386,14 @@ func main() {
 			}
 		}
 		fatal("no such obligation")
+	case "harness":
+		// mqvc harness c03|reject: run a replay harness against /repo's current tree and print its output
+		src := c03Harness
+		if len(os.Args) > 2 && os.Args[2] == "reject" {
+			src = rejectHarness
+		}
+		out, _ := runOverlayTest(src, false)
+		fmt.Print(out)
 	case "check":
 		os.Exit(runCheck(os.Args[2:]))
 	default:
